@@ -76,3 +76,46 @@ func VerifConsolidatedDR(rule *config.Config, from ...types.NamespacedName) *Con
 func VerifScopeWithDRs(namespace string, h host.Name, drs ...*ConsolidatedDestRule) *SidecarScope {
 	return &SidecarScope{Namespace: namespace, destinationRules: map[host.Name][]*ConsolidatedDestRule{h: drs}}
 }
+
+// VerifSD is a ServiceDiscovery over a fixed service list (only Services/GetService are implemented).
+type VerifSD struct {
+	ServiceDiscovery
+	Svcs []*Service
+}
+
+func (s *VerifSD) Services() []*Service { return s.Svcs }
+func (s *VerifSD) GetService(h host.Name) *Service {
+	for _, x := range s.Svcs {
+		if x.Hostname == h {
+			return x
+		}
+	}
+	return nil
+}
+
+// verifMergedVS stands for the krt collection of merged VirtualServices: a view of the store (no delegates, default exportTo).
+type verifMergedVS struct {
+	krt.Collection[MergedVirtualService]
+	store *VerifStore
+}
+
+func (c verifMergedVS) List() []MergedVirtualService {
+	var out []MergedVirtualService
+	for _, l := range c.store.Configs {
+		for i := range l {
+			if l[i].GroupVersionKind.Kind == "VirtualService" {
+				out = append(out, MergedVirtualService{Config: &l[i]})
+			}
+		}
+	}
+	return out
+}
+
+// VerifWorld builds an initialised Environment over fixed services and configs.
+func VerifWorld(m *meshconfig.MeshConfig, svcs []*Service, store *VerifStore) *Environment {
+	env := &Environment{ServiceDiscovery: &VerifSD{Svcs: svcs}, ConfigStore: store, Watcher: VerifWatcher{M: m},
+		EndpointIndex: NewEndpointIndex(DisabledCache{}), AmbientIndexes: &NoopAmbientIndexes{}}
+	env.VirtualServiceController = &VirtualServiceController{outputs: Outputs{MergedVirtualServices: verifMergedVS{store: store}}}
+	env.Init()
+	return env
+}
